@@ -45,6 +45,9 @@ func main() {
 		if res := runMutants(*prop, *repo, *verif); len(res) > 0 {
 			mergeMutantsIntoEvidence(*verif+"/evidence/"+*prop+".json", res)
 		}
+		if res := runControls(*prop, *repo, *verif); len(res) > 0 {
+			mergeControlsIntoEvidence(*verif+"/evidence/"+*prop+".json", res)
+		}
 	}
 	os.Exit(code)
 }
